@@ -12,9 +12,11 @@ import (
 	"encoding/json"
 	"fmt"
 	stdos "os"
+	"runtime"
 	"sort"
 	"strings"
 	"syscall"
+	stdtime "time"
 
 	"github.com/nsqio/nsq/internal/verif/vos"
 	"github.com/nsqio/nsq/internal/verif/vrt"
@@ -594,12 +596,22 @@ func CheckDirLock() []vx.Found {
 	if err != nil {
 		return []vx.Found{{Sig: "INFRA dirlock first New failed", Detail: err.Error()}}
 	}
-	n2, err := New(mkOpts(dir, WOpts{}))
-	if err == nil {
-		viol = append(viol, vx.Found{Sig: "C06 second nsqd on a data path in use was allowed to start :: dirlock", Detail: "New succeeded twice on " + dir})
-		n2.Exit()
-	} else if !strings.Contains(err.Error(), "lock") {
-		viol = append(viol, vx.Found{Sig: "C06 second nsqd refused for another reason than the lock :: dirlock", Detail: err.Error()})
+	// ... at once, and again after the first daemon has been running for a while (garbage
+	// collections and finalizers have run: the lock must not hang on an object that nothing
+	// references any more)
+	for attempt := 0; attempt < 3; attempt++ {
+		n2, err := New(mkOpts(dir, WOpts{}))
+		if err == nil {
+			viol = append(viol, vx.Found{Sig: "C06 second nsqd on a data path in use was allowed to start :: dirlock", Detail: fmt.Sprintf("New succeeded twice on %s (attempt %d; before attempts > 0 the garbage collector and finalizers ran)", dir, attempt)})
+			n2.Exit()
+			break
+		} else if !strings.Contains(err.Error(), "lock") {
+			viol = append(viol, vx.Found{Sig: "C06 second nsqd refused for another reason than the lock :: dirlock", Detail: err.Error()})
+			break
+		}
+		runtime.GC()
+		runtime.GC()
+		stdtime.Sleep(20 * stdtime.Millisecond) // finalizers run on their own goroutine
 	}
 	n1.Exit()
 	n3, err := New(mkOpts(dir, WOpts{}))
